@@ -60,6 +60,7 @@ def run(chk, repo, tier):
     G15 = chk.rule('G15', 'least_number_of_transformations: function look-up keys have the component kinds the feature '
                           'modules generate', floor=4)
     C18b.run_g15(chk, G15, repo)
+    C18b.run_g16_g18(chk, repo)
     G8 = chk.rule('G8', 'children[k] is not read unconditionally when the interpreter itself asserts that fewer '
                         'children are possible', floor=3)
 
